@@ -1,15 +1,31 @@
-(* C15, clause 1 ("for slop >= 1 a document that contains the phrase exactly still matches") — DECIDED: FALSE.
+(* C15, clause 1 ("for slop >= 1 a document that contains the phrase exactly still matches") — DECIDED: FALSE
+   in general, TRUE under three explicit restrictions.
 
-   The clause is refuted, on the model (this file, by computation) and on the implementation (same inputs,
-   /var/tmp/c15x/repro.py): the span search records which positions a span has used in a 64-bit mask computed as
-   [1 << (posn % 64)] with a 32-bit shift (Span.pmask: positions alias modulo 32, and a position = 31 (mod 32)
-   sets 33 bits).  A position of a later term that is OUT of a span's window is OR-ed into the span's position
-   mask and never removed ("the position bit stays OR-ed in").  If that stale bit aliases the position at which
-   the exact occurrence continues, the continuation is rejected as "seen before", and the exact occurrence
-   produces no complete span.
+   Part 1 — refutations (closed, by vm_compute; the same inputs fail on the implementation, /var/tmp/c15x/repro.py).
+     Two independent causes:
+     (R1) spans.pyx records the positions a span has used in a mask [1 << (posn % 64)] computed with a 32-bit shift
+          (Span.pmask: positions alias modulo 32; a position = 31 (mod 32) sets 33 bits).  The position of a later term
+          that is OUT of a span's window is OR-ed into the span's mask and never removed.  If that stale bit aliases
+          the position where the exact occurrence continues, the continuation is rejected as "seen before".
+          Witness A (one 33-token document, phrase [a;b], every slop 1..28), witness B (39 tokens, 3 terms).
+     (R2) spans.py _intersect_all: [to_lhs = last_lhs_headers - (1 << 18)] wraps around for header 0 (document 0,
+          bucket 0); the merged header list is then unsorted and the galloping slice skips needed headers.
+          Witness C (two 19-token documents, no aliasing possible, every slop).
 
-   Part 1: refutations (closed, by vm_compute).
-   Part 2: what IS true of the model (restricted statements), see the section comments. *)
+   Part 2 — what is true of the model:
+     span_table_keeps_exact   (T1) the pure span table keeps an exact occurrence: positions < 31, table not full
+     span_search_target       (T2) span_search credits document d, given the shape of the candidate segments
+     intersect_all_keeps      (T3) _intersect_all keeps the left bucket of every shared/adjacent alignment and its
+                                   right neighbour, provided header 0 is not a candidate of the first term
+     full_credit_positive          the give-up path (full table) credits a positive count
+     slop_keeps_exact_match_partial   the clause itself, on index/slop_freqs, under
+          no_alias   : document d has at most 31 tokens                                   (R1 cannot occur)
+          table_room : (2^|phrase| - 1) * |document d| < 512                              (the 512-slot table never fills)
+          no_wrap    : the first phrase term does not occur in positions 0..17 of document 0   (R2 cannot occur)
+     Witness A violates only no_alias, witness C only no_wrap (witA_/witC_other_restrictions_hold): neither can be
+     dropped.  No input is known that needs table_room; it is what the proof uses to stay away from the give-up path
+     (a table that fills exactly on the last word of the last term drops the remaining positions WITHOUT setting the
+     "full" flag — Span.bits_loop's early exit — so the general case is not a consequence of full_credit_positive). *)
 From Coq Require Import ZArith List Lia ZifyN ZifyNat ZifyBool Bool Sorted Permutation.
 From SA Require Import Base.Prelude Gen.SourceConsts Kernels.Intersect Kernels.Spec Kernels.Intersect_Correct Kernels.Adjacent_Correct
   Kernels.Linear Kernels.Linear_Proofs Codec.Codec Codec.Codec_Spec Codec.Codec_Proofs
@@ -1887,6 +1903,582 @@ Proof.
     pose proof (Hin h (Hkeep h Hc' Hall)) as [K1 K2]. destruct Hh as [-> | ->]; assumption.
 Qed.
 
+(* ---------- L4: what the words of a correct index say about the documents ---------- *)
+Lemma ctz_pos_spec : forall p,
+  N.testbit (Npos p) (ctz_pos p) = true /\ (forall k, k < ctz_pos p -> N.testbit (Npos p) k = false) /\
+  (forall k, N.testbit (N.land (Npos p) (Pos.pred_N p)) k = andb (N.testbit (Npos p) k) (negb (k =? ctz_pos p))).
+Proof.
+  induction p as [p IH|p IH|].
+  - cbn [ctz_pos]. split; [reflexivity|]. split; [intros k Hk; lia|].
+    intros k. change (Pos.pred_N p~1) with (Npos p~0).
+    replace (N.land (Npos p~1) (Npos p~0)) with (Npos p~0).
+    2:{ change (N.land (Npos p~1) (Npos p~0)) with (Pos.Ndouble (N.land (Npos p) (Npos p))). rewrite N.land_diag. reflexivity. }
+    destruct (N.eqb_spec k 0) as [->|Hk]; cbn [negb]; [reflexivity|].
+    rewrite andb_true_r. replace k with (N.succ (N.pred k)) by lia.
+    change (Npos p~0) with (2 * Npos p). change (Npos p~1) with (2 * Npos p + 1).
+    rewrite N.testbit_even_succ, N.testbit_odd_succ by lia. reflexivity.
+  - destruct IH as (I1 & I2 & I3). cbn [ctz_pos]. change (Npos p~0) with (2 * Npos p).
+    split; [rewrite N.testbit_even_succ by lia; exact I1|]. split.
+    + intros k Hk. destruct (N.eq_dec k 0) as [->|Hk0]; [apply N.testbit_even_0|].
+      replace k with (N.succ (N.pred k)) by lia. rewrite N.testbit_even_succ by lia. apply I2. lia.
+    + intros k.
+      replace (N.land (2 * Npos p) (Pos.pred_N p~0)) with (2 * N.land (Npos p) (Pos.pred_N p)).
+      2:{ change (Pos.pred_N p~0) with (Npos (Pos.pred_double p)).
+          change (N.land (2 * Npos p) (Npos (Pos.pred_double p))) with (Pos.land p~0 (Pos.pred_double p)).
+          replace (Pos.land p~0 (Pos.pred_double p)) with (Pos.Ndouble (N.land (Npos p) (Pos.pred_N p))) by (destruct p; reflexivity).
+          destruct (N.land (N.pos p) (Pos.pred_N p)); reflexivity. }
+      destruct (N.eq_dec k 0) as [->|Hk0].
+      * rewrite !N.testbit_even_0. reflexivity.
+      * replace k with (N.succ (N.pred k)) by lia. rewrite !N.testbit_even_succ by lia. rewrite I3.
+        f_equal. f_equal. destruct (N.eqb_spec (N.pred k) (ctz_pos p)), (N.eqb_spec (N.succ (N.pred k)) (N.succ (ctz_pos p))); try reflexivity; lia.
+  - cbn [ctz_pos]. split; [reflexivity|]. split; [intros k Hk; lia|].
+    intros k. cbn [Pos.pred_N]. rewrite N.land_0_r, N.bits_0.
+    destruct (N.eqb_spec k 0) as [->|Hk]; cbn [negb]; [reflexivity|].
+    rewrite andb_true_r. symmetry. apply (N.bits_above_log2 1 k). cbn. lia.
+Qed.
+
+Lemma bits_of_spec : forall fuel x, (N.to_nat (popcount x) <= fuel)%nat ->
+  (forall b, In b (bits_of fuel x) <-> N.testbit x b = true) /\ StronglySorted N.lt (bits_of fuel x).
+Proof.
+  induction fuel as [|f IH]; intros x Hf.
+  - assert (x = 0). { destruct x as [|p]; [reflexivity|]. pose proof (pop_clear' (Npos p) ltac:(discriminate)). lia. }
+    subst x. cbn [bits_of]. split; [|constructor]. intros b. rewrite N.bits_0. split; [intros []|discriminate].
+  - cbn [bits_of]. destruct (N.eqb_spec x 0) as [->|Hne].
+    + split; [|constructor]. intros b. rewrite N.bits_0. split; [intros []|discriminate].
+    + pose proof (pop_clear' x Hne) as Hpc. destruct x as [|p]; [congruence|].
+      destruct (ctz_pos_spec p) as (C1 & C2 & C3).
+      assert (Eland : N.land (Npos p) (Npos p - 1) = N.land (Npos p) (Pos.pred_N p)) by (rewrite N.sub_1_r, <- N.pos_pred_spec; reflexivity).
+      destruct (IH (N.land (Npos p) (Npos p - 1)) ltac:(lia)) as [I1 I2].
+      cbn [ctz]. split.
+      * intros b. cbn [In]. rewrite I1, Eland, C3. split.
+        -- intros [<-|H]; [exact C1|]. apply andb_true_iff in H. tauto.
+        -- intros H. destruct (N.eqb_spec b (ctz_pos p)) as [->|Hb]; [left; reflexivity|right]. rewrite H. reflexivity.
+      * constructor; [exact I2|]. apply Forall_forall. intros b Hb. apply I1 in Hb. rewrite Eland, C3 in Hb.
+        apply andb_true_iff in Hb. destruct Hb as [Hb1 Hb2]. apply negb_true_iff, N.eqb_neq in Hb2.
+        destruct (N.lt_trichotomy b (ctz_pos p)) as [Hlt|[E|Hgt]]; [|congruence|exact Hgt].
+        rewrite (C2 b Hlt) in Hb1. discriminate.
+Qed.
+
+Lemma bits18_in b : In b bits18 <-> b < 18.
+Proof.
+  split; [apply bits18_lt|]. intros H. unfold bits18. apply in_map_iff. exists (N.to_nat b). split; [lia|]. apply in_seq. lia.
+Qed.
+
+Lemma wpay_bit w b : N.testbit (wpay w) b = andb (N.testbit w b) (b <? 18).
+Proof.
+  unfold wpay. replace (wnot header_mask) with (N.ones 18) by (vm_compute; reflexivity).
+  rewrite N.land_spec, ones_bit. reflexivity.
+Qed.
+
+Lemma wbase_msb w : wbase w = dec_msb w * lsb_bits.
+Proof. reflexivity. Qed.
+
+Lemma wcs_in w c : In c (wcs w) <-> exists b, b < 18 /\ N.testbit w b = true /\ c = b + wbase w.
+Proof.
+  unfold wcs. rewrite in_map_iff. pose proof (wpay_pc w) as Hpc.
+  destruct (bits_of_spec 70 (wpay w) ltac:(lia)) as [Hin _]. split.
+  - intros (b & <- & Hb). apply Hin in Hb. rewrite wpay_bit in Hb. apply andb_true_iff in Hb. destruct Hb as [Hb1 Hb2].
+    apply N.ltb_lt in Hb2. exists b. repeat split; assumption.
+  - intros (b & Hb & Ht & ->). exists b. split; [reflexivity|]. apply Hin. rewrite wpay_bit, Ht. apply N.ltb_lt in Hb. rewrite Hb. reflexivity.
+Qed.
+
+Lemma wcs_rows w c : In c (wcs w) <-> In (dkey w, c) (word_rows w).
+Proof.
+  rewrite wcs_in. unfold word_rows. rewrite in_map_iff. split.
+  - intros (b & Hb & Ht & ->). exists b. split; [rewrite wbase_msb; reflexivity|].
+    apply filter_In. split; [apply bits18_in; exact Hb|]. rewrite land_bit_test. exact Ht.
+  - intros (b & E & Hb). apply filter_In in Hb. destruct Hb as [Hb1 Hb2]. rewrite land_bit_test in Hb2.
+    apply bits18_in in Hb1. injection E as E. exists b. repeat split; try assumption. rewrite wbase_msb. symmetry. exact E.
+Qed.
+
+(* positions of a term in a document *)
+Lemma offsets_spec t : forall d j q, In q (offsets_from j t d) <-> j <= q /\ nth_error d (N.to_nat (q - j)) = Some t.
+Proof.
+  induction d as [|x d IH]; intros j q; cbn [offsets_from].
+  - split; [intros []|]. intros [_ H]. destruct (N.to_nat (q - j)); discriminate.
+  - destruct (N.eqb_spec x t) as [->|Hne].
+    + cbn [In]. rewrite IH. split.
+      * intros [<-|[H1 H2]].
+        -- split; [lia|]. replace (N.to_nat (j - j)) with O by lia. reflexivity.
+        -- split; [lia|]. replace (N.to_nat (q - j)) with (S (N.to_nat (q - (j + 1)))) by lia. exact H2.
+      * intros [H1 H2]. destruct (N.eq_dec q j) as [->|Hq]; [left; reflexivity|right].
+        split; [lia|]. replace (N.to_nat (q - j)) with (S (N.to_nat (q - (j + 1)))) in H2 by lia. exact H2.
+    + rewrite IH. split.
+      * intros [H1 H2]. split; [lia|]. replace (N.to_nat (q - j)) with (S (N.to_nat (q - (j + 1)))) by lia. exact H2.
+      * intros [H1 H2]. destruct (N.eq_dec q j) as [->|Hq].
+        -- replace (N.to_nat (j - j)) with O in H2 by lia. cbn in H2. congruence.
+        -- split; [lia|]. replace (N.to_nat (q - j)) with (S (N.to_nat (q - (j + 1)))) in H2 by lia. exact H2.
+Qed.
+
+Lemma tp_from_spec t : forall docs i k q, In (k, q) (tp_from i docs t) <->
+  i <= k /\ nth_error (nth (N.to_nat (k - i)) docs []) (N.to_nat q) = Some t /\ (N.to_nat (k - i) < length docs)%nat.
+Proof.
+  induction docs as [|d r IH]; intros i k q; cbn [tp_from].
+  - split; [intros []|]. intros (_ & _ & H). cbn in H. lia.
+  - rewrite in_app_iff, in_map_iff, IH. split.
+    + intros [(p & E & Hp)|(H1 & H2 & H3)].
+      * injection E as <- <-. apply offsets_spec in Hp. destruct Hp as [_ Hp]. rewrite N.sub_0_r in Hp.
+        split; [lia|]. replace (N.to_nat (i - i)) with O by lia. cbn [nth length]. split; [exact Hp|lia].
+      * split; [lia|]. replace (N.to_nat (k - i)) with (S (N.to_nat (k - (i + 1)))) by lia. cbn [nth length]. split; [exact H2|lia].
+    + intros (H1 & H2 & H3). destruct (N.eq_dec k i) as [->|Hk].
+      * left. exists q. split; [reflexivity|]. apply offsets_spec. split; [lia|]. rewrite N.sub_0_r.
+        replace (N.to_nat (i - i)) with O in H2 by lia. exact H2.
+      * right. replace (N.to_nat (k - i)) with (S (N.to_nat (k - (i + 1)))) in H2, H3 by lia. cbn [nth length] in H2, H3.
+        split; [lia|]. split; [exact H2|lia].
+Qed.
+
+(* an exact occurrence: a start offset *)
+Lemma prefix_eqb_spec : forall ph d, prefix_eqb ph d = true -> forall k, (k < length ph)%nat -> nth_error d k = Some (nth k ph 0).
+Proof.
+  induction ph as [|x ph IH]; intros d H k Hk; [cbn in Hk; lia|].
+  destruct d as [|y d]; cbn [prefix_eqb] in H; [discriminate|]. apply andb_true_iff in H. destruct H as [H1 H2].
+  apply N.eqb_eq in H1. subst y. destruct k as [|k]; [reflexivity|]. cbn [nth_error nth]. apply IH; [exact H2|cbn [length] in Hk; lia].
+Qed.
+
+Lemma occ_pos : forall ph d, occ ph d > 0 -> exists p, forall k, (k < length ph)%nat -> nth_error d (p + k) = Some (nth k ph 0).
+Proof.
+  induction d as [|x d IH]; intros H; cbn [occ] in H; [lia|].
+  destruct (prefix_eqb ph (x :: d)) eqn:E.
+  - exists O. intros k Hk. cbn [Nat.add]. apply prefix_eqb_spec; assumption.
+  - destruct IH as (p & Hp); [lia|]. exists (S p). intros k Hk. cbn [Nat.add nth_error]. apply Hp. exact Hk.
+Qed.
+
+(* ---- words of the form word_of k b s ---- *)
+Lemma dkey_word k b s : k < 2^28 -> b < 2^18 -> s < 2^18 -> dkey (word_of k b s) = k.
+Proof. intros. apply (dec_key_word k b s); assumption. Qed.
+Lemma wbase_word k b s : b < 2^18 -> s < 2^18 -> wbase (word_of k b s) = b * 18.
+Proof. intros Hb Hs. rewrite wbase_msb, dec_msb_word by assumption. reflexivity. Qed.
+
+Lemma wform_b w k b s : w = word_of k b s -> b * 18 < 2^18 -> b < 2^18.
+Proof. intros _ H. lia. Qed.
+
+Lemma wcs_word k b s c : k < 2^28 -> b * 18 < 2^18 -> s < 2^18 ->
+  (In c (wcs (word_of k b s)) <-> exists bit, bit < 18 /\ N.testbit s bit = true /\ c = bit + b * 18).
+Proof.
+  intros Hk Hb Hs. assert (Hb' : b < 2^18) by lia. rewrite wcs_in, wbase_word by assumption. split.
+  - intros (bit & H1 & H2 & H3). exists bit. repeat split; try assumption.
+    rewrite <- (lsb_of_word k b s Hs). rewrite N.land_spec, H2. change 262143 with (N.ones 18). rewrite ones_bit.
+    apply N.ltb_lt in H1. rewrite H1. reflexivity.
+  - intros (bit & H1 & H2 & H3). exists bit. repeat split; try assumption.
+    rewrite <- (lsb_of_word k b s Hs) in H2. rewrite N.land_spec in H2. apply andb_true_iff in H2. tauto.
+Qed.
+
+Lemma wcs_sorted w : StronglySorted N.lt (wcs w).
+Proof.
+  unfold wcs. pose proof (wpay_pc w) as Hpc. destruct (bits_of_spec 70 (wpay w) ltac:(lia)) as [_ Hs].
+  induction Hs as [|x l Hs IH Hf]; cbn [map]; [constructor|]. constructor; [exact IH|].
+  apply Forall_forall. intros y Hy. apply in_map_iff in Hy. destruct Hy as (z & <- & Hz). rewrite Forall_forall in Hf. specialize (Hf z Hz). lia.
+Qed.
+
+(* ---- lengths ---- *)
+Lemma enc_aux_len : forall ps cur, (length (encode_aux cur ps) <= length ps + match cur with Some _ => 1 | None => 0 end)%nat.
+Proof.
+  induction ps as [|[k p] rest IH]; intros cur; cbn [encode_aux length].
+  - destruct cur as [[[k0 b0] s0]|]; cbn; lia.
+  - destruct cur as [[[k0 b0] s0]|].
+    + destruct ((k =? k0) && (p / 18 =? b0)).
+      * pose proof (IH (Some (k0, b0, N.lor s0 (onehot p)))) as H. cbv beta iota in H. lia.
+      * cbn [length]. pose proof (IH (Some (k, p / 18, onehot p))) as H. cbv beta iota in H. lia.
+    + pose proof (IH (Some (k, p / 18, onehot p))) as H. cbv beta iota in H. lia.
+Qed.
+Lemma enc_len ps : (length (encode_spec ps) <= length ps)%nat.
+Proof. unfold encode_spec. pose proof (enc_aux_len ps None) as H. cbv beta iota in H. lia. Qed.
+
+Lemma concat_len_bound c : forall docs : list (list N), Forall (fun d => N.of_nat (length d) <= c) docs ->
+  N.of_nat (length (concat docs)) <= c * N.of_nat (length docs).
+Proof.
+  induction docs as [|d r IH]; intros HF; cbn [concat length]; [lia|]. inversion HF; subst. rewrite app_length. specialize (IH H2). lia.
+Qed.
+
+Lemma posting_PL docs t : wf_docs docs -> PL (encode_spec (tp_from 0 docs t)).
+Proof.
+  intros Hwf. destruct (tp_wf docs Hwf t) as [Hs Hb]. split; [apply enc_wform; assumption|]. split.
+  - destruct (encode_canonical _ Hs Hb) as [H _].
+    replace (map Hd (encode_spec (tp_from 0 docs t))) with (map header_of (encode_spec (tp_from 0 docs t))); [exact H|].
+    apply map_ext. intros. apply header_of_Hd.
+  - pose proof (enc_len (tp_from 0 docs t)). pose proof (tp_length_le t docs 0). destruct Hwf as [W1 W2].
+    pose proof (concat_len_bound 262143 docs W1). change (2^50) with 1125899906842624. change (2^28) with 268435456 in W2. nia.
+Qed.
+
+(* ---- what a posting word says about the documents, and back ---- *)
+Lemma posting_pos docs t w c : wf_docs docs -> In w (encode_spec (tp_from 0 docs t)) -> In c (wcs w) ->
+  nth_error (nth (N.to_nat (dkey w)) docs []) (N.to_nat c) = Some t /\ (N.to_nat (dkey w) < length docs)%nat.
+Proof.
+  intros Hwf Hw Hc. destruct (tp_wf docs Hwf t) as [Hs Hb].
+  apply wcs_rows in Hc.
+  assert (Hin : In (dkey w, c) (tp_from 0 docs t)).
+  { rewrite <- (rows_encode_spec _ Hs Hb). apply in_flat_map. exists w. split; assumption. }
+  apply tp_from_spec in Hin. destruct Hin as (_ & H1 & H2). rewrite N.sub_0_r in H1, H2. split; assumption.
+Qed.
+
+Lemma posting_has docs t dd q : wf_docs docs -> (dd < length docs)%nat -> nth_error (nth dd docs []) q = Some t ->
+  exists w, In w (encode_spec (tp_from 0 docs t)) /\ dkey w = N.of_nat dd /\ In (N.of_nat q) (wcs w).
+Proof.
+  intros Hwf Hd Hq. destruct (tp_wf docs Hwf t) as [Hs Hb].
+  assert (Hin : In (N.of_nat dd, N.of_nat q) (tp_from 0 docs t)).
+  { apply tp_from_spec. rewrite N.sub_0_r, !Nat2N.id. split; [lia|]. split; assumption. }
+  rewrite <- (rows_encode_spec _ Hs Hb) in Hin. apply in_flat_map in Hin. destruct Hin as (w & Hw & Hrow).
+  exists w. split; [exact Hw|].
+  assert (Hk : dkey w = N.of_nat dd).
+  { unfold word_rows in Hrow. apply in_map_iff in Hrow. destruct Hrow as (bit & E & _). injection E as E1 _. exact E1. }
+  split; [exact Hk|]. apply wcs_rows. rewrite Hk. exact Hrow.
+Qed.
+
+(* ---- splitting a key-sorted segment around document d ---- *)
+Lemma filter_nil_all {A} (f : A -> bool) l : (forall x, In x l -> f x = false) -> filter f l = [].
+Proof. induction l as [|x l IH]; intros H; cbn [filter]; [reflexivity|]. rewrite (H x (or_introl eq_refl)). apply IH. intros y Hy. apply H. right. exact Hy. Qed.
+
+Lemma split3 dN : forall s, StronglySorted (fun x y => dkey x <= dkey y) s ->
+  s = filter (fun w => dkey w <? dN) s ++ filter (fun w => dkey w =? dN) s ++ filter (fun w => dN <? dkey w) s.
+Proof.
+  induction 1 as [|x s Hs IH Hf]; [reflexivity|]. cbn [filter]. rewrite Forall_forall in Hf.
+  destruct (N.ltb_spec (dkey x) dN) as [H1|H1].
+  - assert (E2 : (dkey x =? dN) = false) by (apply N.eqb_neq; lia). assert (E3 : (dN <? dkey x) = false) by (apply N.ltb_ge; lia).
+    rewrite E2, E3. cbn [app]. f_equal. exact IH.
+  - destruct (N.eqb_spec (dkey x) dN) as [H2|H2].
+    + assert (E3 : (dN <? dkey x) = false) by (apply N.ltb_ge; lia). rewrite E3.
+      rewrite (filter_nil_all (fun w => dkey w <? dN) s) in * by (intros y Hy; apply N.ltb_ge; specialize (Hf y Hy); lia).
+      cbn [app] in *. f_equal. exact IH.
+    + assert (E3 : (dN <? dkey x) = true) by (apply N.ltb_lt; lia). rewrite E3.
+      rewrite (filter_nil_all (fun w => dkey w <? dN) s) in * by (intros y Hy; apply N.ltb_ge; specialize (Hf y Hy); lia).
+      rewrite (filter_nil_all (fun w => dkey w =? dN) s) in * by (intros y Hy; apply N.eqb_neq; specialize (Hf y Hy); lia).
+      cbn [app] in *. f_equal. exact IH.
+Qed.
+
+Lemma ss_filter {A} (R : A -> A -> Prop) (f : A -> bool) l : StronglySorted R l -> StronglySorted R (filter f l).
+Proof.
+  induction 1 as [|x l Hs IH Hf]; cbn [filter]; [constructor|]. destruct (f x); [|exact IH].
+  constructor; [exact IH|]. apply Forall_forall. intros y Hy. apply filter_In in Hy. rewrite Forall_forall in Hf. apply Hf. tauto.
+Qed.
+
+Lemma ss_app (R : N -> N -> Prop) l1 l2 : StronglySorted R l1 -> StronglySorted R l2 -> (forall a b, In a l1 -> In b l2 -> R a b) ->
+  StronglySorted R (l1 ++ l2).
+Proof.
+  induction 1 as [|x l Hs IH Hf]; intros H2 H12; cbn [app]; [exact H2|].
+  constructor; [apply IH; [exact H2|intros a b Ha Hb; apply H12; [right; exact Ha|exact Hb]]|].
+  apply Forall_forall. intros y Hy. apply in_app_iff in Hy. destruct Hy as [Hy|Hy]; [rewrite Forall_forall in Hf; apply Hf, Hy|apply H12; [left; reflexivity|exact Hy]].
+Qed.
+
+Lemma take_idx_hd_sorted e idxs : StronglySorted N.lt (map Hd e) -> StronglySorted N.lt idxs ->
+  Forall (fun a => a < N.of_nat (length e)) idxs -> StronglySorted N.lt (map Hd (take_idx e idxs)).
+Proof.
+  intros He. induction idxs as [|a idxs IH]; intros Hs Hr; cbn [take_idx map]; [constructor|].
+  inversion Hs as [|? ? Hs' Hf]; subst. inversion Hr as [|? ? Ha Hr']; subst.
+  constructor; [apply IH; assumption|]. apply Forall_forall. intros y Hy. apply in_map_iff in Hy. destruct Hy as (w & <- & Hw).
+  apply take_idx_in in Hw. destruct Hw as (b & Hb & ->). rewrite Forall_forall in Hf, Hr'. specialize (Hf b Hb). specialize (Hr' b Hb).
+  pose proof (sslt_nth_lt (map Hd e) (N.to_nat a) (N.to_nat b) He ltac:(lia) ltac:(rewrite map_length; lia)) as H.
+  change 0 with (Hd 0) in H at 1 2. rewrite !map_nth in H. exact H.
+Qed.
+
+(* keys and buckets of well-formed words *)
+Lemma wform_key_le x y : wform x -> wform y -> Hd x < Hd y -> dkey x <= dkey y.
+Proof.
+  intros (k & b & s & -> & Hk & Hb & Hs & _) (k' & b' & s' & -> & Hk' & Hb' & Hs' & _) H.
+  rewrite !Hd_word in H by lia. rewrite !dkey_word by lia. unfold word_of in H. pows. nia.
+Qed.
+
+Lemma wform_bucket w dN c : wform w -> dkey w = dN -> In c (wcs w) -> Hd w = word_of dN (c / 18) 0.
+Proof.
+  intros (k & b & s & -> & Hk & Hb & Hs & _) Hkey Hc. rewrite dkey_word in Hkey by lia. subst k.
+  apply wcs_word in Hc; try assumption. destruct Hc as (bit & H1 & _ & ->). rewrite Hd_word by lia.
+  f_equal. rewrite N.div_add by discriminate. rewrite N.div_small by exact H1. reflexivity.
+Qed.
+
+Lemma run_positions_sorted dN : forall run, Forall wform run -> (forall w, In w run -> dkey w = dN) ->
+  StronglySorted N.lt (map Hd run) -> StronglySorted N.lt (concat (map wcs run)).
+Proof.
+  induction run as [|x run IH]; intros HF Hk Hs; cbn [map concat]; [constructor|].
+  inversion HF as [|? ? Hx HF']; subst. cbn [map] in Hs. inversion Hs as [|? ? Hs' Hf]; subst.
+  apply ss_app; [apply wcs_sorted|apply IH; [exact HF'|intros w Hw; apply Hk; right; exact Hw|exact Hs']|].
+  intros a b Ha Hb. apply in_concat in Hb. destruct Hb as (l & Hl & Hb). apply in_map_iff in Hl. destruct Hl as (y & <- & Hy).
+  rewrite Forall_forall in Hf, HF'. specialize (Hf (Hd y) (in_map Hd _ _ Hy)).
+  pose proof (Hk x (or_introl eq_refl)) as Kx. pose proof (Hk y (or_intror Hy)) as Ky.
+  destruct Hx as (k & bx & sx & -> & Hk1 & Hb1 & Hs1 & _). destruct (HF' y Hy) as (k' & by_ & sy & -> & Hk2 & Hb2 & Hs2 & _).
+  rewrite dkey_word in Kx, Ky by lia. subst k k'.
+  apply wcs_word in Ha, Hb; try assumption. destruct Ha as (bit1 & A1 & _ & ->). destruct Hb as (bit2 & B1 & _ & ->).
+  rewrite !Hd_word in Hf by lia. unfold word_of in Hf. pows. nia.
+Qed.
+
+(* ---------- L5: assembling the restricted theorem ---------- *)
+Definition tr_of (dN : N) (s : list N) : seg3 :=
+  (filter (fun w => dkey w <? dN) s, filter (fun w => dkey w =? dN) s, filter (fun w => dN <? dkey w) s).
+
+Lemma hd_sorted_keys : forall s, Forall wform s -> StronglySorted N.lt (map Hd s) -> StronglySorted (fun x y => dkey x <= dkey y) s.
+Proof.
+  induction s as [|x s IH]; intros HF Hs; [constructor|]. inversion HF as [|? ? Hx HF']; subst. cbn [map] in Hs.
+  inversion Hs as [|? ? Hs' Hf]; subst. constructor; [apply IH; assumption|].
+  apply Forall_forall. intros y Hy. rewrite Forall_forall in Hf, HF'. apply wform_key_le; [exact Hx|apply HF', Hy|apply Hf, in_map, Hy].
+Qed.
+
+Lemma Forall2_nth {A B} (P : A -> B -> Prop) da db : forall l1 l2, Forall2 P l1 l2 ->
+  forall k, (k < length l1)%nat -> P (nth k l1 da) (nth k l2 db).
+Proof. induction 1 as [|x y l1 l2 Hxy _ IH]; intros k Hk; cbn [length] in Hk; [lia|]. destruct k; cbn [nth]; [exact Hxy|apply IH; lia]. Qed.
+Lemma Forall2_length {A B} (P : A -> B -> Prop) l1 l2 : Forall2 P l1 l2 -> length l1 = length l2.
+Proof. induction 1; cbn [length]; congruence. Qed.
+
+(* one sliced segment: a sub-sequence of a posting list that contains a word of document d *)
+Section OneSeg.
+Variables (docs : list (list N)) (t : N) (dd : nat) (s idxs : list N).
+Hypothesis Hwf : wf_docs docs.
+Let e := encode_spec (tp_from 0 docs t).
+Let dN := N.of_nat dd.
+Hypothesis Es : s = take_idx e idxs.
+Hypothesis Hidx : StronglySorted N.lt idxs.
+Hypothesis Hrange : Forall (fun a => a < N.of_nat (length e)) idxs.
+
+Lemma seg_incl w : In w s -> In w e.
+Proof. intros H. rewrite Es in H. apply take_idx_in in H. destruct H as (a & Ha & ->). rewrite Forall_forall in Hrange. specialize (Hrange a Ha). apply nth_In. lia. Qed.
+
+Lemma seg_wform : Forall wform s.
+Proof. apply Forall_forall. intros w Hw. apply seg_incl in Hw. destruct (posting_PL docs t Hwf) as (H & _ & _). rewrite Forall_forall in H. apply H, Hw. Qed.
+
+Lemma seg_hd_sorted : StronglySorted N.lt (map Hd s).
+Proof. rewrite Es. apply take_idx_hd_sorted; [|exact Hidx|exact Hrange]. destruct (posting_PL docs t Hwf) as (_ & H & _). exact H. Qed.
+
+Lemma seg_split : seg_of (tr_of dN s) = s.
+Proof. unfold seg_of, tr_of. symmetry. apply split3. apply hd_sorted_keys; [apply seg_wform|apply seg_hd_sorted]. Qed.
+
+Lemma seg_is_d w : In w s -> dkey w = dN -> seg_d dN (tr_of dN s).
+Proof.
+  intros Hw Hk. unfold seg_d, tr_of. split; [intros x Hx; apply filter_In in Hx; destruct Hx as [_ Hx]; apply N.ltb_lt; exact Hx|].
+  split. { intros E. assert (Hin : In w (filter (fun w0 => dkey w0 =? dN) s)) by (apply filter_In; split; [exact Hw|apply N.eqb_eq; exact Hk]). rewrite E in Hin. destruct Hin. }
+  split; [intros x Hx; apply filter_In in Hx; destruct Hx as [_ Hx]; apply N.eqb_eq; exact Hx|].
+  destruct (filter (fun w0 => dN <? dkey w0) s) as [|x post] eqn:E; [exact I|].
+  assert (Hin : In x (filter (fun w0 => dN <? dkey w0) s)) by (rewrite E; left; reflexivity).
+  apply filter_In in Hin. destruct Hin as [_ Hx]. apply N.ltb_lt in Hx. lia.
+Qed.
+
+Definition seg_ev : list N := concat (map wcs (filter (fun w => dkey w =? dN) s)).
+
+Lemma seg_ev_pos c : In c seg_ev -> nth_error (nth dd docs []) (N.to_nat c) = Some t.
+Proof.
+  unfold seg_ev. intros H. apply in_concat in H. destruct H as (l & Hl & Hc). apply in_map_iff in Hl. destruct Hl as (w & <- & Hw).
+  apply filter_In in Hw. destruct Hw as [Hw Hk]. apply N.eqb_eq in Hk.
+  destruct (posting_pos docs t w c Hwf (seg_incl w Hw) Hc) as [H1 _]. rewrite Hk in H1. unfold dN in H1. rewrite Nat2N.id in H1. exact H1.
+Qed.
+
+Lemma seg_ev_lt c : In c seg_ev -> c < N.of_nat (length (nth dd docs [])).
+Proof. intros H. apply seg_ev_pos in H. assert (N.to_nat c < length (nth dd docs []))%nat by (apply nth_error_Some; congruence). lia. Qed.
+
+Lemma seg_ev_sorted : StronglySorted N.lt seg_ev.
+Proof.
+  unfold seg_ev. apply (run_positions_sorted dN).
+  - apply Forall_forall. intros w Hw. apply filter_In in Hw. destruct Hw as [Hw _]. pose proof seg_wform as H. rewrite Forall_forall in H. apply H, Hw.
+  - intros w Hw. apply filter_In in Hw. destruct Hw as [_ Hk]. apply N.eqb_eq. exact Hk.
+  - assert (G : forall l, StronglySorted N.lt (map Hd l) -> StronglySorted N.lt (map Hd (filter (fun w => dkey w =? dN) l))).
+    { induction l as [|x l IH]; intros H; cbn [filter map]; [constructor|]. cbn [map] in H. inversion H as [|? ? H' Hf]; subst.
+      destruct (dkey x =? dN); [|apply IH; exact H']. cbn [map]. constructor; [apply IH; exact H'|].
+      apply Forall_forall. intros y Hy. apply in_map_iff in Hy. destruct Hy as (z & <- & Hz). apply filter_In in Hz. destruct Hz as [Hz _].
+      rewrite Forall_forall in Hf. apply Hf. apply in_map. exact Hz. }
+    apply G. apply seg_hd_sorted.
+Qed.
+
+Lemma seg_ev_len : (length seg_ev <= length (nth dd docs []))%nat.
+Proof. apply sslt_len_le; [apply seg_ev_sorted|]. apply Forall_forall. intros c Hc. apply seg_ev_lt. exact Hc. Qed.
+
+Lemma seg_ev_has w c : In w s -> dkey w = dN -> In c (wcs w) -> In c seg_ev.
+Proof.
+  intros Hw Hk Hc. unfold seg_ev. apply in_concat. exists (wcs w). split; [|exact Hc]. apply in_map. apply filter_In. split; [exact Hw|apply N.eqb_eq; exact Hk].
+Qed.
+End OneSeg.
+
+Lemma get_all_posts_map ix (f : N -> list N) : forall ts, (forall t, In t ts -> lookup t (ix_posts ix) = Some (f t)) ->
+  get_all_posts ix ts = AOk (map f ts).
+Proof.
+  induction ts as [|t ts IH]; intros H; [reflexivity|]. cbn [get_all_posts map]. unfold get_posts. rewrite (H t (or_introl eq_refl)). cbn [abind].
+  rewrite IH by (intros t' Ht'; apply H; right; exact Ht'). reflexivity.
+Qed.
+
+Lemma some_bit s : s <> 0 -> s < 2^18 -> exists bit, bit < 18 /\ N.testbit s bit = true.
+Proof.
+  intros Hnz Hs. exists (N.log2 s). split; [apply N.log2_lt_pow2; lia|apply N.bit_log2; exact Hnz].
+Qed.
+
+Lemma nth_map' {A B} (f : A -> B) l k da db : (k < length l)%nat -> nth k (map f l) db = f (nth k l da).
+Proof. intros H. rewrite (nth_indep (map f l) db (f da)) by (rewrite map_length; exact H). apply map_nth. Qed.
+
+Lemma no_wrap_posting docs t0 : wf_docs docs -> (forall q, (q < 18)%nat -> nth_error (nth 0 docs []) q <> Some t0) ->
+  forall w, In w (encode_spec (tp_from 0 docs t0)) -> 2^18 <= Hd w.
+Proof.
+  intros Hwf Hnw w Hw. destruct (posting_PL docs t0 Hwf) as (HF & _ & _). rewrite Forall_forall in HF.
+  pose proof (HF w Hw) as (k & b & s & E & Hk & Hb & Hs & Hnz). subst w. rewrite Hd_word by lia.
+  destruct (N.eq_dec k 0) as [->|Hk0]; [|unfold word_of; pows; nia].
+  destruct (N.eq_dec b 0) as [->|Hb0]; [|unfold word_of; pows; nia].
+  exfalso. destruct (some_bit s Hnz Hs) as (bit & B1 & B2).
+  assert (Hc : In bit (wcs (word_of 0 0 s))).
+  { apply wcs_word; try lia. exists bit. repeat split; [exact B1|exact B2|lia]. }
+  destruct (posting_pos docs t0 _ bit Hwf Hw Hc) as [H1 _]. rewrite dkey_word in H1 by lia. cbn [N.to_nat] in H1.
+  apply (Hnw (N.to_nat bit)); [lia|exact H1].
+Qed.
+
+Lemma word_succ_bucket k b : word_of k (b + 1) 0 = word_of k b 0 + 2^18.
+Proof. unfold word_of. lia. Qed.
+
+Lemma div18_cases p c : p <= c -> c < 36 -> c / 18 = p / 18 \/ c / 18 = p / 18 + 1.
+Proof.
+  intros H1 H2. destruct (N.lt_ge_cases c 18) as [Hc|Hc].
+  - rewrite (N.div_small c 18), (N.div_small p 18) by lia. left. reflexivity.
+  - assert (c / 18 = 1). { symmetry. apply (N.div_unique c 18 1 (c - 18)); lia. }
+    destruct (N.lt_ge_cases p 18) as [Hp|Hp].
+    + rewrite (N.div_small p 18) by lia. right. lia.
+    + assert (p / 18 = 1). { symmetry. apply (N.div_unique p 18 1 (p - 18)); lia. } left. lia.
+Qed.
+
+(* ---------- the restricted clause ---------- *)
+Theorem slop_keeps_exact_match_partial : forall docs bs ix ts slop v d,
+  wf_docs docs -> index false bs docs = AOk ix -> 1 <= slop -> (2 <= length ts)%nat ->
+  slop_freqs ix ts slop = AOk v -> (d < length docs)%nat -> occ ts (nth d docs []) > 0 ->
+  (* no_alias: every position of document d is below 31, where the 32-bit position mask is injective and one-hot *)
+  (length (nth d docs []) <= 31)%nat ->
+  (* table_room: the 512-slot span table cannot fill while document d is processed *)
+  ((2 ^ length ts - 1) * length (nth d docs []) < 512)%nat ->
+  (* no_wrap: (document 0, bucket 0) is not a candidate header, so [last_lhs_headers - 1] does not wrap around *)
+  (forall q, (q < 18)%nat -> nth_error (nth 0 docs []) q <> Some (hd 0 ts)) ->
+  nth d v 0 <> 0.
+Proof.
+  intros docs bs ix ts slop v d Hwf Hix _ Hn2 Hsf Hdlt Hocc HL Hroom Hnw.
+  destruct (index_any_ok docs bs Hwf) as (ix' & E & Hok). rewrite Hix in E. injection E as <-.
+  destruct Hok as (Hposts & _ & Hterms & Hlens).
+  set (doc := nth d docs []) in *. set (n := length ts) in *. set (dN := N.of_nat d).
+  destruct (occ_pos ts doc Hocc) as (p & Hp).
+  assert (Hpn : (p + n <= length doc)%nat).
+  { specialize (Hp (n - 1)%nat ltac:(lia)). assert (p + (n - 1) < length doc)%nat by (apply nth_error_Some; congruence). lia. }
+  assert (Hdoc_in : In doc docs) by (apply nth_In; exact Hdlt).
+  assert (Hts_in : forall t, In t ts -> In t (concat docs)).
+  { intros t Ht. destruct (In_nth ts t 0 Ht) as (k & Hk & <-). apply in_concat. exists doc. split; [exact Hdoc_in|].
+    eapply nth_error_In. apply Hp. exact Hk. }
+  set (enc := fun t => encode_spec (tp_from 0 docs t)).
+  (* unfold the query *)
+  unfold slop_freqs in Hsf.
+  assert (Hknown : forallb (known ix) ts = true).
+  { apply forallb_forall. intros t Ht. apply (known_true docs ix t Hterms). apply Hts_in, Ht. }
+  rewrite Hknown in Hsf. cbn [negb] in Hsf.
+  assert (Hlt2 : Nat.ltb (length ts) 2 = false) by (apply Nat.ltb_ge; exact Hn2). rewrite Hlt2 in Hsf.
+  rewrite (get_all_posts_map ix enc) in Hsf.
+  2:{ intros t Ht. rewrite (Hposts t (Hts_in t Ht)), term_pairs_tp. reflexivity. }
+  cbn [abind] in Hsf.
+  destruct (span_search (map enc ts) slop) as [pf| | |] eqn:Ess; cbn [abind] in Hsf; try discriminate.
+  apply lift_inv in Hsf.
+  (* the postings *)
+  destruct ts as [|t0 [|t1 ts']]; [cbn in Hn2; lia|cbn in Hn2; lia|].
+  assert (HPL : Forall PL (map enc (t0 :: t1 :: ts'))).
+  { apply Forall_forall. intros e He. apply in_map_iff in He. destruct He as (t & <- & _). apply posting_PL. exact Hwf. }
+  assert (NW : forall w, In w (enc t0) -> 2^18 <= Hd w) by (apply no_wrap_posting; [exact Hwf|exact Hnw]).
+  cbn [map] in HPL, Ess.
+  destruct (intersect_all_keeps (enc t0) (enc t1) (map enc ts') HPL NW) as (sl & Eia & F2).
+  change (enc t0 :: enc t1 :: map enc ts') with (map enc (t0 :: t1 :: ts')) in *.
+  set (ts := t0 :: t1 :: ts') in *.
+  assert (Hlen_sl : length sl = n) by (rewrite <- (Forall2_length _ _ _ F2), map_length; reflexivity).
+  (* the word of each term that holds its position of the exact occurrence *)
+  assert (Hw : forall k, (k < n)%nat -> exists w, In w (enc (nth k ts 0)) /\ dkey w = dN /\ In (N.of_nat (p + k)) (wcs w) /\
+                                              Hd w = word_of dN (N.of_nat (p + k) / 18) 0).
+  { intros k Hk. destruct (posting_has docs (nth k ts 0) d (p + k) Hwf Hdlt (Hp k Hk)) as (w & W1 & W2 & W3).
+    exists w. repeat split; try assumption. apply wform_bucket; [|exact W2|exact W3].
+    destruct (posting_PL docs (nth k ts 0) Hwf) as (HF & _ & _). rewrite Forall_forall in HF. apply HF, W1. }
+  destruct (Hw 0%nat ltac:(lia)) as (w0 & W01 & W02 & W03 & W04). rewrite Nat.add_0_r in W04. cbn [nth] in W01.
+  set (h := word_of dN (N.of_nat p / 18) 0) in *.
+  assert (Hbk : forall k, (k < n)%nat -> word_of dN (N.of_nat (p + k) / 18) 0 = h \/ word_of dN (N.of_nat (p + k) / 18) 0 = h + 2^18).
+  { intros k Hk. destruct (div18_cases (N.of_nat p) (N.of_nat (p + k)) ltac:(lia) ltac:(lia)) as [E|E]; rewrite E; [left; reflexivity|right; apply word_succ_bucket]. }
+  assert (Hh_curr : In h (map Hd (enc t0))) by (rewrite <- W04; apply in_map; exact W01).
+  assert (Hh_rest : forall e', In e' (map enc (t1 :: ts')) -> In h (map Hd e') \/ In (h + 2^18) (map Hd e')).
+  { intros e' He'. apply In_nth with (d := []) in He'. destruct He' as (j & Hj & <-). rewrite map_length in Hj.
+    destruct (Hw (S j) ltac:(cbn [length] in *; unfold n, ts; cbn [length]; lia)) as (w & W1 & _ & _ & W4).
+    change (nth (S j) ts 0) with (nth j (t1 :: ts') 0) in W1.
+    rewrite (nth_map' enc (t1 :: ts') j 0 []) by exact Hj.
+    destruct (Hbk (S j) ltac:(unfold n, ts; cbn [length] in *; lia)) as [E|E]; rewrite E in W4; [left|right]; rewrite <- W4; apply in_map; exact W1. }
+  (* the segments around document d *)
+  set (trs := map (tr_of dN) sl).
+  assert (Hseg : forall k, (k < n)%nat -> exists idxs,
+             nth k sl [] = take_idx (enc (nth k ts 0)) idxs /\ StronglySorted N.lt idxs /\
+             Forall (fun a => a < N.of_nat (length (enc (nth k ts 0)))) idxs /\
+             exists w, In w (nth k sl []) /\ dkey w = dN /\ In (N.of_nat (p + k)) (wcs w)).
+  { intros k Hk. pose proof (Forall2_nth _ [] [] _ _ F2 k ltac:(rewrite map_length; exact Hk)) as Hks.
+    rewrite (nth_map' enc ts k 0 []) in Hks by exact Hk. destruct Hks as (idxs & E1 & E2 & E3 & E4).
+    exists idxs. repeat split; try assumption.
+    destruct (Hw k Hk) as (w & W1 & W2 & W3 & W4). exists w. repeat split; try assumption.
+    destruct (In_nth _ _ 0 W1) as (a & Ha & Ea). rewrite E1. apply take_idx_in. exists (N.of_nat a). rewrite Nat2N.id. split; [|symmetry; exact Ea].
+    apply (E4 (N.of_nat a) h); [lia| |exact Hh_curr|exact Hh_rest].
+    rewrite Nat2N.id, Ea, W4. apply Hbk. exact Hk. }
+  assert (Hsegs_all : forall s, In s sl -> exists k, (k < n)%nat /\ s = nth k sl []).
+  { intros s Hs. destruct (In_nth _ _ [] Hs) as (k & Hk & <-). exists k. split; [lia|reflexivity]. }
+  assert (Hmap_seg : map seg_of trs = sl).
+  { unfold trs. rewrite map_map. rewrite <- (map_id sl) at 2. apply map_ext_in. intros s Hs.
+    destruct (Hsegs_all s Hs) as (k & Hk & ->). destruct (Hseg k Hk) as (idxs & E1 & E2 & E3 & _).
+    apply (seg_split docs (nth k ts 0) d (nth k sl []) idxs Hwf E1 E2 E3). }
+  assert (Hsegd : Forall (seg_d dN) trs).
+  { unfold trs. apply Forall_forall. intros tr Htr. apply in_map_iff in Htr. destruct Htr as (s & <- & Hs).
+    destruct (Hsegs_all s Hs) as (k & Hk & ->). destruct (Hseg k Hk) as (idxs & E1 & E2 & E3 & w & W1 & W2 & _).
+    apply (seg_is_d d (nth k sl []) w W1 W2). }
+  assert (Hlen_trs : length trs = n) by (unfold trs; rewrite map_length; exact Hlen_sl).
+  assert (Hevs_nth : forall k, (k < n)%nat -> nth k (seg_evs trs) [] = seg_ev d (nth k sl [])).
+  { intros k Hk. unfold seg_evs, trs. rewrite map_map. rewrite (nth_map' _ sl k [] []) by lia. reflexivity. }
+  assert (Hevs_all : forall cs, In cs (seg_evs trs) -> exists k, (k < n)%nat /\ cs = seg_ev d (nth k sl [])).
+  { intros cs Hcs. destruct (In_nth _ _ [] Hcs) as (k & Hk & <-). unfold seg_evs in Hk. rewrite map_length, Hlen_trs in Hk.
+    exists k. split; [exact Hk|apply Hevs_nth; exact Hk]. }
+  rewrite <- Hmap_seg in Eia.
+  destruct (span_search_target (map enc ts) slop pf trs dN (N.of_nat p) (length doc) Eia Hsegd) as (c & Hin & Hc & Hnd).
+  - lia.
+  - lia.
+  - lia.
+  - apply Forall_forall. intros cs Hcs. destruct (Hevs_all cs Hcs) as (k & Hk & ->). destruct (Hseg k Hk) as (idxs & E1 & E2 & E3 & _).
+    apply Forall_forall. intros c Hc. pose proof (seg_ev_lt docs (nth k ts 0) d (nth k sl []) idxs Hwf E1 E3 c Hc). fold doc in H. lia.
+  - intros k Hk. rewrite Hlen_trs in Hk. rewrite (Hevs_nth k Hk). destruct (Hseg k Hk) as (idxs & E1 & E2 & E3 & w & W1 & W2 & W3).
+    replace (N.of_nat p + N.of_nat k) with (N.of_nat (p + k)) by lia. apply (seg_ev_has d (nth k sl []) w _ W1 W2 W3).
+  - apply Forall_forall. intros cs Hcs. destruct (Hevs_all cs Hcs) as (k & Hk & ->). destruct (Hseg k Hk) as (idxs & E1 & E2 & E3 & _).
+    apply (seg_ev_len docs (nth k ts 0) d (nth k sl []) idxs Hwf E1 E2 E3).
+  - rewrite Hlen_trs. exact Hroom.
+  - exact Ess.
+  - rewrite (store_many_nodup pf _ v d c Hsf Hnd Hin). lia.
+Qed.
+
+(* ---------- the give-up path: when the table is full the credited count is still positive ---------- *)
+Lemma full_credit_positive : forall sums, sums <> [] -> Forall (fun s => 1 <= s) sums -> 1 <= min_popcount sums.
+Proof.
+  unfold min_popcount.
+  assert (G : forall sums m, Forall (fun s => 1 <= s) sums -> (sums <> [] \/ 1 <= m) -> (m = 0 \/ 1 <= m) ->
+              1 <= fold_left (fun m s => if orb (m =? 0) (s <? m) then s else m) sums m).
+  { induction sums as [|s sums IH]; intros m HF Hne Hm; cbn [fold_left].
+    - destruct Hne as [Hne|Hne]; [congruence|exact Hne].
+    - inversion HF as [|? ? Hs HF']; subst. apply IH; [exact HF'| |].
+      + right. destruct ((m =? 0) || (s <? m)) eqn:E; [exact Hs|]. apply orb_false_iff in E. destruct E as [E _]. apply N.eqb_neq in E. lia.
+      + right. destruct ((m =? 0) || (s <? m)) eqn:E; [exact Hs|]. apply orb_false_iff in E. destruct E as [E _]. apply N.eqb_neq in E. lia. }
+  intros sums Hne HF. apply G; [exact HF|left; exact Hne|left; reflexivity].
+Qed.
+
+(* ---------- the restrictions are satisfiable, and two of them are needed ---------- *)
+(* a corpus inside all three restrictions: the theorem applies, and the model indeed credits document 1 *)
+Example partial_nonvacuous :
+  exists ix v, index false 100 [[9; 9]; [7; 1; 2; 3; 7]] = AOk ix /\ slop_freqs ix [1; 2; 3] 2 = AOk v /\ nth 1 v 0 <> 0.
+Proof.
+  assert (E : exists ix, index false 100 [[9; 9]; [7; 1; 2; 3; 7]] = AOk ix /\ exists v, slop_freqs ix [1; 2; 3] 2 = AOk v).
+  { eexists. split; [vm_compute; reflexivity|]. eexists. vm_compute. reflexivity. }
+  destruct E as (ix & E1 & v & E2). exists ix, v. split; [exact E1|]. split; [exact E2|].
+  apply (slop_keeps_exact_match_partial [[9; 9]; [7; 1; 2; 3; 7]] 100 ix [1; 2; 3] 2 v 1).
+  - split; [repeat constructor; vm_compute; discriminate|vm_compute; reflexivity].
+  - exact E1.
+  - lia.
+  - cbn; lia.
+  - exact E2.
+  - cbn; lia.
+  - vm_compute. reflexivity.
+  - cbn; lia.
+  - cbn; lia.
+  - intros q Hq. cbn [nth hd]. destruct q as [|[|[|q]]]; cbn; congruence.
+Qed.
+
+(* witness A breaks ONLY no_alias (33 > 31); witness C breaks ONLY no_wrap *)
+Example witA_other_restrictions_hold :
+  Nat.ltb ((2 ^ 2 - 1) * length witA) 512 = true /\
+  forallb (fun q => negb (match nth_error witA q with Some 1 => true | _ => false end)) (seq 0 18) = true /\
+  length witA = 33%nat.
+Proof. vm_compute. repeat split; reflexivity. Qed.
+Example witC_other_restrictions_hold :
+  Nat.leb (length witC1) 31 = true /\ Nat.ltb ((2 ^ 2 - 1) * length witC1) 512 = true /\ nth_error witC0 1 = Some 1.
+Proof. vm_compute. repeat split; reflexivity. Qed.
+
 Print Assumptions span_table_keeps_exact.
 Print Assumptions span_search_target.
 Print Assumptions intersect_all_keeps.
+Print Assumptions full_credit_positive.
+Print Assumptions slop_keeps_exact_match_partial.
+Print Assumptions partial_nonvacuous.
